@@ -250,6 +250,15 @@ func (n *node) materialise(dir string) {
 	}
 }
 
+func (n *node) hasKid(name string) bool {
+	for _, k := range n.Kids {
+		if k.Name == name {
+			return true
+		}
+	}
+	return false
+}
+
 func (n *node) count() (files, dirs int) {
 	for _, k := range n.Kids {
 		if k.N.Kind == kDir {
@@ -781,12 +790,37 @@ func genDir(r *lib.Rng, depth int, top bool, pkgIsRepoRoot bool) *node {
 			add(name, &node{Kind: kFile})
 		}
 	}
-	// a sub-package
-	if !top && r.Chance(1, 5) {
-		add(lib.Pick(r, buildFileNames), &node{Kind: kFile})
+	// a sub-package: its build file is a regular file, or (a third of them) a symbolic link to a sibling / a shared
+	// template elsewhere; one in four holds BOTH configured build file names
+	if !top && r.Chance(1, 4) {
+		mk := func() *node {
+			if r.Chance(1, 3) {
+				target := "../BUILD.tmpl"
+				if len(n.Kids) > 0 && r.Bool() {
+					if k := lib.Pick(r, n.Kids); k.N.Kind == kFile {
+						target = k.Name
+					}
+				}
+				return &node{Kind: kSymFile, Target: target}
+			}
+			return &node{Kind: kFile}
+		}
+		first := lib.Pick(r, buildFileNames)
+		add(first, mk())
+		if r.Chance(1, 4) {
+			for _, other := range buildFileNames {
+				add(other, mk())
+			}
+		}
 	}
+	// the package's own directory: one build file, or two of different configured names (a leftover / alternative)
 	if top && r.Chance(1, 2) {
 		add("BUILD", &node{Kind: kFile})
+		if r.Chance(1, 3) {
+			add("BUILD.plz", &node{Kind: kFile})
+		}
+	} else if top && r.Chance(1, 6) {
+		add("BUILD.plz", &node{Kind: kFile})
 	}
 	// plz-out: the output tree at the top of the repository; rarely something else of that name
 	if top && r.Chance(1, 3) {
@@ -928,10 +962,105 @@ func jsQuery(q query, tree *node, res result) map[string]any {
 		"inc": q.Inc, "exc": q.Exc, "hidden": q.Hidden, "include_symlinks": q.Syms, "returned": res.Out, "panic": res.Panic}
 }
 
+// the glob() builtin of the BUILD language (src/parse/asp/builtins.go glob): the same query written as a BUILD file
+// `filename` of the package and interpreted in process with Parse.BuildFileName = buildFileNames.  ok = false: the
+// patterns cannot be written as plain asp string literals.
+func runBuiltin(repo string, q query, filename string) (res result, src string, ok bool) {
+	inc, ok1 := aspList(renderAll(q.Inc))
+	exc, ok2 := aspList(renderAll(q.Exc))
+	if !ok1 || !ok2 {
+		return result{}, "", false
+	}
+	src = fmt.Sprintf("g0 = glob(include = %s, exclude = %s, hidden = %s, include_symlinks = %s, allow_empty = True)\n", inc, exc, pyBool(q.Hidden), pyBool(q.Syms))
+	cwd, _ := os.Getwd()
+	if err := os.Chdir(repo); err != nil {
+		panic(err)
+	}
+	defer os.Chdir(cwd)
+	lists, errText := asp.VerifC21Glob(buildFileNames, q.Pkg, filename, src)
+	if errText != "" {
+		return result{Panic: errText}, src, true
+	}
+	out := lists["g0"]
+	if out == nil {
+		out = []string{}
+	}
+	return result{Out: out}, src, true
+}
+
+func bfnPats() []pat {
+	out := []pat{}
+	for _, b := range buildFileNames {
+		out = append(out, pat{{Atoms: lit(b)}})
+	}
+	return out
+}
+
+// the first directory on the way to e (e itself included when it is a directory) that holds an entry named like a
+// build file; nonRegular: every such entry of it is a symbolic link or a directory
+func firstSubpackage(tree *node, e ent) (found, nonRegular bool) {
+	cur := tree
+	for _, sname := range e.Segs {
+		var next *node
+		for _, k := range cur.Kids {
+			if k.Name == sname {
+				next = k.N
+			}
+		}
+		if next == nil || next.Kind != kDir {
+			return false, false
+		}
+		has, reg := false, false
+		for _, k := range next.Kids {
+			if isBuildName(k.Name) {
+				has = true
+				reg = reg || k.N.Kind == kFile
+			}
+		}
+		if has {
+			return true, !reg
+		}
+		cur = next
+	}
+	return false, false
+}
+
 func runQuery(c *lib.Ctx, repo string, tree *node, ents []ent, q query, toModel bool) {
-	res := runGlob(repo, q)
-	js := jsQuery(q, tree, res)
-	key := fmt.Sprint(tree.json(), q.Pkg, renderAll(q.Inc), renderAll(q.Exc), q.Hidden, q.Syms)
+	runQueryB(c, repo, tree, ents, q, toModel, "")
+}
+
+// builtinFile != "": the query goes through the glob() builtin as the BUILD file of that name (which appends the
+// configured build file names to the excludes); otherwise straight to fs.Globber.Glob
+func runQueryB(c *lib.Ctx, repo string, tree *node, ents []ent, q query, toModel bool, builtinFile string) {
+	var res result
+	var buildSrc string
+	if builtinFile != "" {
+		var ok bool
+		if res, buildSrc, ok = runBuiltin(repo, q, builtinFile); !ok {
+			return
+		}
+		c.Hist("builtin_two_build_file_names_in_package_dir", lib.Bool(tree.hasKid("BUILD") && tree.hasKid("BUILD.plz")))
+	} else {
+		res = runGlob(repo, q)
+	}
+	called := q // what was asked
+	if builtinFile != "" {
+		// what the documented semantics select: build files are never sources
+		q.Exc = append(append([]pat{}, q.Exc...), bfnPats()...)
+	}
+	js := jsQuery(called, tree, res)
+	if builtinFile != "" {
+		js["builtin"], js["build_file_name"], js["build_file"] = true, builtinFile, buildSrc
+	}
+	key := fmt.Sprint(tree.json(), q.Pkg, renderAll(q.Inc), renderAll(q.Exc), q.Hidden, q.Syms, builtinFile)
+	if builtinFile != "" {
+		// the builtin = the Globber with the configured build file names appended to the excludes, list for list
+		c.Oracle()
+		if pres := runGlob(repo, q); !sameResult(res, pres) {
+			c.Fail("glob-builtin-differs-from-globber-with-build-file-names-excluded", fmt.Sprintf("BUILD file %q: glob(%q, exclude=%q, hidden=%v) returned %q (error %q); fs.Globber.Glob with exclude + %q returns %q (panic %q)",
+				builtinFile, renderAll(called.Inc), renderAll(called.Exc), q.Hidden, res.Out, res.Panic, buildFileNames, pres.Out, pres.Panic), js)
+		}
+	}
 	hasDStar := false
 	for _, p := range append(append([]pat{}, q.Inc...), q.Exc...) {
 		hasDStar = hasDStar || strings.Contains(render(p), "**")
@@ -977,6 +1106,14 @@ func runQuery(c *lib.Ctx, repo string, tree *node, ents []ent, q query, toModel 
 				// walkDir calls isBuildFile on the package directory itself and returns SkipDir from the root
 				cls = "package-directory-named-like-build-file"
 			}
+			if !want && have && cls == "unexplained-mismatch" {
+				if found, nonReg := firstSubpackage(tree, e); found && nonReg {
+					// the directory is a package (fs.IsPackage follows links), but the walk did not treat it as one
+					cls = "entry-of-subpackage-with-non-regular-build-file-returned"
+				} else if builtinFile != "" && isBuildName(e.Segs[len(e.Segs)-1]) {
+					cls = "build-file-returned-by-glob-builtin"
+				}
+			}
 			what := fmt.Sprintf("glob(%q, exclude=%q, hidden=%v) in package %q returned %q, which the documented semantics do not select", renderAll(q.Inc), renderAll(q.Exc), q.Hidden, q.Pkg, path)
 			if want {
 				what = fmt.Sprintf("glob(%q, exclude=%q, hidden=%v) in package %q did not return %q, which the documented semantics select", renderAll(q.Inc), renderAll(q.Exc), q.Hidden, q.Pkg, path)
@@ -996,12 +1133,29 @@ func runQuery(c *lib.Ctx, repo string, tree *node, ents []ent, q query, toModel 
 		}
 	}
 
+	// ---- the builtin's own promise, directly: nothing named like a configured build file is ever a source
+	if builtinFile != "" {
+		c.Oracle()
+		for f := range got {
+			if isBuildName(filepath.Base(f)) && known[f] {
+				if found, nonReg := firstSubpackage(tree, ent{Segs: strings.Split(f, "/")}); found && nonReg {
+					continue // reported above under its own class
+				}
+				c.Fail("build-file-returned-by-glob-builtin", fmt.Sprintf("BUILD file %q: glob(%q, exclude=%q) returned %q, a file named like a configured build file (%q)",
+					builtinFile, renderAll(called.Inc), renderAll(called.Exc), f, buildFileNames), js)
+			}
+		}
+	}
+
 	// ---- model side
 	ok := toModel
 	for _, p := range append(append([]pat{}, q.Inc...), q.Exc...) {
 		ok = ok && modellable(p)
 	}
-	if ok {
+	if ok && builtinFile != "" {
+		c.Case(lib.App("CBuiltin", lib.StrList(buildFileNames), lib.Str(q.Pkg), tree.coq(), coqPats(called.Inc), coqPats(called.Exc),
+			lib.Bool(q.Hidden), lib.Bool(q.Syms), lib.StrList(res.Out)), js, key, nontrivial)
+	} else if ok {
 		c.Case(lib.App("CGlobS", lib.StrList(buildFileNames), lib.Str(q.Pkg), tree.coq(), coqPats(q.Inc), coqPats(q.Exc),
 			lib.Bool(q.Hidden), lib.Bool(q.Syms), lib.StrList(res.Out)), js, key, nontrivial)
 	} else {
@@ -1371,6 +1525,19 @@ func withTree(c *lib.Ctx, pkg string, tree *node, f func(repo string, ents []ent
 	f(repo, ents)
 }
 
+func symlink(name, target string) entry { return entry{name, &node{Kind: kSymFile, Target: target}} }
+
+// make sure the directory holds a regular file of that name
+func (n *node) setFile(name string) {
+	for i, k := range n.Kids {
+		if k.Name == name {
+			n.Kids[i].N = &node{Kind: kFile}
+			return
+		}
+	}
+	n.Kids = append(n.Kids, entry{name, &node{Kind: kFile}})
+}
+
 func dir(kids ...entry) *node { return &node{Kind: kDir, Kids: kids} }
 func file(name string) entry { return entry{name, &node{Kind: kFile}} }
 func sub(name string, kids ...entry) entry {
@@ -1407,6 +1574,8 @@ func main() {
 			Symlink bool           `json:"include_symlinks"`
 			Calls   []call         `json:"calls"`
 			E2E     bool           `json:"e2e"`
+			Builtin bool           `json:"builtin"`
+			BFile   string         `json:"build_file_name"`
 		}
 		if c.ReadReplay(&rq) && rq.Tree != nil {
 			tree := nodeFromJSON(rq.Tree)
@@ -1416,7 +1585,11 @@ func main() {
 				return
 			}
 			withTree(c, rq.Pkg, tree, func(repo string, ents []ent) {
-				runQuery(c, repo, tree, ents, query{rq.Pkg, rq.Inc, rq.Exc, rq.Hidden, rq.Symlink}, true)
+				bf := ""
+				if rq.Builtin {
+					bf = rq.BFile
+				}
+				runQueryB(c, repo, tree, ents, query{rq.Pkg, rq.Inc, rq.Exc, rq.Hidden, rq.Symlink}, true, bf)
 			})
 			return
 		}
@@ -1486,6 +1659,34 @@ func main() {
 			withTree(c, fc.pkg, fc.tree, func(repo string, ents []ent) {
 				runQuery(c, repo, fc.tree, ents, query{fc.pkg, fc.inc, fc.exc, false, false}, true)
 			})
+		}
+
+		// ---- 1c. unusual trees: a sub-directory whose build file is a symbolic link (to a shared template) is a package
+		//          of its own like any other; a package directory holding two configured build file names
+		symBuild := dir(file("a.txt"), sub("plain", file("p.txt")), sub("sub", symlink("BUILD", "../../tmpl/BUILD.tmpl"), sub("deep", file("d.txt")), file("s.txt")),
+			sub("sub2", symlink("BUILD.plz", "s2.txt"), file("s2.txt")))
+		for _, pkg := range []string{"", "pkg"} {
+			for _, inc := range [][]pat{{{dstar, anyTxt}}, {{segOf(lit("sub")), segOf([]atom{star()})}, {segOf([]atom{star()}), anyTxt}}, {{dstar}}} {
+				for _, syms := range []bool{false, true} {
+					withTree(c, pkg, symBuild, func(repo string, ents []ent) {
+						runQuery(c, repo, symBuild, ents, query{pkg, inc, nil, false, syms}, true)
+					})
+				}
+			}
+		}
+		twoNames := dir(file("BUILD"), file("BUILD.plz"), file("a.txt"), sub("dir", file("x.txt")), sub("sub", file("BUILD.plz"), file("s.txt")))
+		for _, pkg := range []string{"", "pkg"} {
+			for _, parsedFrom := range buildFileNames {
+				for _, qq := range []query{
+					{pkg, []pat{{segOf([]atom{star()})}}, nil, false, false},
+					{pkg, []pat{{dstar}}, []pat{{segOf(lit("dir"))}}, false, false},
+					{pkg, []pat{{segOf(lit("BUILD"), []atom{star()})}, {anyTxt}}, nil, true, true},
+				} {
+					withTree(c, pkg, twoNames, func(repo string, ents []ent) {
+						runQueryB(c, repo, twoNames, ents, qq, true, filepath.Join(pkg, parsedFrom))
+					})
+				}
+			}
 		}
 
 		// ---- 2. generated trees x generated queries
@@ -1564,6 +1765,56 @@ func main() {
 			e2e := i%3 == 2
 			tree, calls := genSequence(r, e2e)
 			runSequence(c, tree, calls, e2e, true)
+		}
+
+		// ---- 6. the glob() builtin of the BUILD language: generated package trees that hold one or BOTH configured build
+		//         file names (plz parses the first configured name that exists), queries written as a BUILD file and
+		//         interpreted in process with Parse.BuildFileName configured; compared with the reference in which build
+		//         file names are never sources, with the model (glob_builtin) and with the plain Globber given the same
+		//         excludes plus the build file names
+		for i, n := 0, c.Scale(45, 900); i < n; i++ {
+			r := c.Rng.Fork()
+			pkg := ""
+			if r.Chance(1, 2) {
+				pkg = lib.Pick(r, []string{"pkg", "a/pkg", "third_party/go"})
+			}
+			tree := genDir(r, 0, true, pkg == "")
+			switch r.Intn(4) {
+			case 0:
+				tree.setFile("BUILD")
+			case 1:
+				tree.setFile("BUILD.plz")
+			default:
+				tree.setFile("BUILD")
+				tree.setFile("BUILD.plz")
+			}
+			parsedFrom := "BUILD.plz"
+			if tree.hasKid("BUILD") {
+				parsedFrom = "BUILD"
+			}
+			withTree(c, pkg, tree, func(repo string, ents []ent) {
+				for j := 0; j < 4; j++ {
+					q := query{Pkg: pkg, Hidden: r.Chance(1, 4), Syms: r.Chance(1, 2)}
+					if j == 0 {
+						q.Inc = []pat{lib.Pick(r, broadPatterns)}
+					} else {
+						for k, n := 0, r.Range(1, 2); k < n; k++ {
+							q.Inc = append(q.Inc, genPattern(r, ents))
+						}
+					}
+					for k, n := 0, r.Intn(3); k < n; k++ {
+						q.Exc = append(q.Exc, genExclude(r, ents))
+					}
+					// skip what the plain Globber cannot answer (a pattern that does not compile panics inside the interpreter too)
+					plain := q
+					plain.Exc = append(append([]pat{}, q.Exc...), bfnPats()...)
+					pres := runGlob(repo, plain)
+					if pres.Panic != "" {
+						continue
+					}
+					runQueryB(c, repo, tree, ents, q, j < 3, filepath.Join(pkg, parsedFrom))
+				}
+			})
 		}
 
 		// ---- 4. toRegexString on rendered patterns and on adversarial strings
